@@ -1014,6 +1014,8 @@ static bool g_skip_leak = false;
 static void run_case(vf::Ctx& c) {
   static bool init = false;
   if (!init) { init = true; int r = ppl_initialize(); if (r != 0) throw vf::Fail("init.first", "ppl_initialize() returned " + std::to_string(r)); ppl_set_error_handler(c20_error_handler); }
+  // no timeout of an earlier (failed) case may leak into this one
+  ppl_reset_timeout(); ppl_reset_deterministic_timeout();
   Env e(c); Basics b(e); long h0 = g_handles;
   int what = c.t.weighted({12, 12, 12, 9, 9, 9, 9, 9, 6, 5, 8});
   switch (what) {
@@ -1595,6 +1597,29 @@ template <class SYS> static const SYS* c20_hold(SYS&& tmp, SYS& store) { store.m
     PCs cs; b.gen_cs(cs, n, 4, nnc, &txt);
     int a1 = e.both(OPN(add_constraints), "add_constraints", [&] { return OPF(add_constraints)(w->h, cs.h.k()); }, [&] { w->x.add_constraints(cs.x); return 0; });
     e.both(OPN(add_constraints), "add_constraints", [&] { return OPF(add_constraints)(w2->h, cs.h.k()); }, [&] { w2->x.add_constraints(cs.x); return 0; }); cs.h.free_(e);
+    if (wgt == 30 && scale == 2) {
+      // REAL timeout (1/90 of the timeout operations): ppl_set_timeout(1) and a spin until the watchdog has fired (its clock is the CPU time
+      // of this process, which the spin consumes).  Nothing below depends on WHEN it fires; if it is not seen within the spin cap the
+      // case says nothing.  After an expired timeout was reported (PPL_TIMEOUT_EXCEPTION) the interface must behave as with no timeout.
+      c.log << "real timeout of 1 csec around is_bounded of a copy with " << txt << "\n";
+      int q0 = e.ccall("ppl_set_timeout", [&] { return ppl_set_timeout(1); }); c.check("same.ret.set_timeout", q0 == 0, "ppl_set_timeout(1) failed");
+      volatile unsigned long spin = 0; while (Parma_Polyhedra_Library::abandon_expensive_computations == 0 && spin < 3000000000UL) spin = spin + 1;
+      bool seen = Parma_Polyhedra_Library::abandon_expensive_computations != 0; c.tag(seen ? "real timeout fired" : "real timeout not observed within the spin cap");
+      if (seen) {
+        int rc = e.ccall(OPN(is_bounded), [&] { return OPF(is_bounded)(w->h.k()); }); int x1 = e.expect([&] { return w->x.is_bounded() ? 1 : 0; });
+        c.check("timeout.code", rc == x1 || rc == PPL_TIMEOUT_EXCEPTION, [&] { return std::string(OPN(is_bounded)) + " after a real timeout fired returned " + std::to_string(rc) + " (" + g_err.desc + "), C++ without timeout gives " + std::to_string(x1); });
+        if (rc == PPL_TIMEOUT_EXCEPTION && a1 == 0) {
+          c.tag("real timeout reported");
+          int r2 = e.ccall(OPN(is_bounded), [&] { return OPF(is_bounded)(w2->h.k()); }); int x2 = e.expect([&] { return w2->x.is_bounded() ? 1 : 0; });
+          c.check("timeout.state_after_expiry", r2 == x2, [&] { return "after a real timeout expired and was reported (no timeout is set any more) " + std::string(OPN(is_bounded)) + " on an identical copy returned " + std::to_string(r2) + " (" + g_err.desc + "), C++ gives " + std::to_string(x2); });
+        }
+      }
+      int q1 = e.ccall("ppl_reset_timeout", [&] { return ppl_reset_timeout(); }); c.check("timeout.reset", q1 == 0, "ppl_reset_timeout failed");
+      c.check("timeout.pointer_cleared", Parma_Polyhedra_Library::abandon_expensive_computations == 0, "abandon_expensive_computations is still set after ppl_reset_timeout()");
+      { std::unique_ptr<Obj> v(clone(o, false)); e.both(OPN(is_bounded), "timeout_after_reset", [&] { return OPF(is_bounded)(v->h.k()); }, [&] { X cp(o.x); return cp.is_bounded() ? 1 : 0; }); v->h.free_(e); }
+      w->h.free_(e); w2->h.free_(e);
+      return;
+    }
     c.log << "deterministic timeout " << wgt << "*2^" << scale << " around is_bounded of a copy with " << txt << "\n";
     int r0 = e.ccall("ppl_set_deterministic_timeout", [&] { return ppl_set_deterministic_timeout(wgt, scale); }); c.check("same.ret.set_det_timeout", r0 == 0, "ppl_set_deterministic_timeout failed");
     int rc = e.ccall(OPN(is_bounded), [&] { return OPF(is_bounded)(w->h.k()); });
